@@ -249,6 +249,7 @@ def run(c):
                         break
             finally:
                 srv.cleanup()
+        aged_vs_fresh(c, t, rng)
         hammer(c, t, rng)
         if all_rounds_overlapped and max_overlap_all >= 2:
             c.seen(">= 2 requests overlapping in every round")
@@ -258,6 +259,64 @@ def run(c):
         engine_a(c, t, rng)
     finally:
         t.cleanup()
+
+
+def aged_vs_fresh(c, t, rng):
+    """The response depends only on the request, the files and the configuration - not on what the process served
+    before.  One server is aged with a long mixed history (valid requests of every kind in a seeded order, rejected
+    requests, other spellings of the same names); then every request of a reference set is sent to it and, in another
+    order, to a freshly started server; the normalised responses must be equal."""
+    from ..gen import req as reqgen
+    c.need("aged server compared with a fresh one")
+    for w in ((1, 4) if c.quick else (1, 2, 4, 8)):
+        mix = build_mix(t, rng, 48 if c.quick else 160, "age%d" % w)
+        # other spellings: the same paths with upper-cased extension / an appended query / a trailing slash
+        extra = []
+        for kind, tok, raw in mix[:24]:
+            line, rest = raw.split(b"\r\n", 1)
+            parts = line.split(b" ")
+            if len(parts) == 3 and b"." in parts[1]:
+                stem, ext = parts[1].rsplit(b".", 1)
+                extra.append(b" ".join([parts[0], stem + b"." + ext.upper(), parts[2]]) + b"\r\n" + rest)
+                extra.append(b" ".join([parts[0], parts[1] + b"?v=1", parts[2]]) + b"\r\n" + rest)
+                extra.append(b" ".join([parts[0], parts[1] + b"/", parts[2]]) + b"\r\n" + rest)
+        junk = [b"BOGUS / HTTP/1.1\r\n\r\n", b"GET / HTTP/9.9\r\n\r\n", b"\xff\xfe\r\n\r\n", b"GET /%zz HTTP/1.1\r\nHost: x\r\n\r\n",
+                b"POST /form-url-encoded-enctype-post-method HTTP/1.1\r\nHost: x\r\nContent-Type: application/x-www-form-urlencoded\r\n\r\nleft=over&from=history" + b"&pad=" + b"p" * 3000,
+                b"GET /no/such/thing HTTP/1.1\r\nHost: x\r\n\r\n", b"GET /NO/SUCH/THING.HTML HTTP/1.1\r\nHost: x\r\n\r\n"]
+        history = [raw for _, _, raw in mix] + extra + junk * 3
+        rng.shuffle(history)
+        aged = server.Server(t.root, threads=w)
+        fresh = server.Server(t.root, threads=w)
+        try:
+            if not aged.started or not fresh.started:
+                c.inconc("server did not start")
+                continue
+            for raw in history:
+                aged.request(raw, timeout=20)
+            if not aged.alive():
+                c.inconc("the aged server exited during its history (C04/C06's business)")
+                continue
+            order = list(range(len(mix)))
+            rng.shuffle(order)
+            got_aged = {}
+            for i in order:
+                got_aged[i] = aged.request(mix[i][2], timeout=20)[0]
+            for i in reversed(range(len(mix))):
+                kind, tok, raw = mix[i]
+                data = fresh.request(raw, timeout=20)[0]
+                c.ev()
+                c.cls("aged-vs-fresh", kind, w)
+                c.seen("aged server compared with a fresh one")
+                a, b = normalise(got_aged[i], raw), normalise(data, raw)
+                if a != b:
+                    k = next((x for x in range(min(len(a), len(b))) if a[x] != b[x]), min(len(a), len(b)))
+                    where = "head" if k < (b.find(b"\r\n\r\n") if b"\r\n\r\n" in b else 0) else "body"
+                    c.violation("C08:depends-on-history:%s:%s" % (kind, "empty" if not a else where),
+                                "a %s request is answered differently by a server that has served %d connections before and by a freshly started one (first difference at byte %d, %d vs %d bytes)" % (kind, len(history), k, len(a), len(b)),
+                                {"workers": w, "request_b64": base64.b64encode(raw).decode(), "kind": kind, "aged_head": got_aged[i][:300].decode("latin-1"), "fresh_head": data[:300].decode("latin-1"), "history_length": len(history)})
+        finally:
+            aged.cleanup()
+            fresh.cleanup()
 
 
 def hammer(c, t, rng):
